@@ -372,12 +372,8 @@ class C12(Property):
 
     def searches(self, ctx):
         n = 4000 if ctx.tier == 'quick' else 50000
-        # every variant is searched by a quarter of the shards (a run of a handful of examples would spend a large part
-        # of its budget on Hypothesis' minimal first example, which is the same in every shard)
-        share = max(1, ctx.nshards // 4)
-        per = max(4, n // len(VARIANTS) // share)
-        return [(f"inv:{k}" + (f":{v}" if v else ''), strategy((k, v)), per)
-                for i, (k, v) in enumerate(VARIANTS) if ctx.nshards < 4 or (ctx.shard - i) % 4 == 0]
+        from vf.core import stratified
+        return stratified('inv', lambda kv: strategy(kv), VARIANTS, n, ctx)
 
     def run(self, case, ctx):
         dw.check_import_location()
